@@ -10,6 +10,8 @@ import (
 	"sync"
 	"time"
 
+	"github.com/shutter-network/rolling-shutter/rolling-shutter/keyper"
+
 	"verif/harness/core"
 	"verif/harness/ev"
 	"verif/harness/fakepg"
@@ -341,6 +343,9 @@ func ReplayAndValidate(c *core.Ctx, g *Gen, extra []Behaviour) (*Outcome, error)
 	if workers < 1 {
 		workers = 1
 	}
+	if g.Plan.U.Via == "loop" { // these steps mostly wait
+		workers = 12
+	}
 	if workers > len(tasks) {
 		workers = len(tasks)
 	}
@@ -645,6 +650,7 @@ func Check(c *core.Ctx) int {
 			}
 		}
 	}
+	keyper.VerifSetEonPubkeyTickerTime(LoopTicker)
 	plans := Plans(c.Thorough(), c.Seed)
 	known := core.LoadKnown().For(c.Prop)
 	var outs []*Outcome
@@ -768,7 +774,7 @@ func writeEvidence(c *core.Ctx, outs []*Outcome, violations int, specLeads []str
 		}
 		p := o.Gen.Plan
 		unis = append(unis, map[string]any{
-			"name": p.U.Name, "route": p.U.Route, "eons": p.U.Eons, "configs": p.U.Cfgs, "modes": p.Modes, "insert_kinds": p.InsertKinds,
+			"name": p.U.Name, "route": p.U.Route, "tick_via": map[bool]string{true: "real polling loop with a slow consumer", false: "tick body"}[p.U.Via == "loop"], "eons": p.U.Eons, "configs": p.U.Cfgs, "modes": p.Modes, "insert_kinds": p.InsertKinds,
 			"max_pending": p.MaxPending, "max_ticks": p.MaxTicks, "faults": append([]string{}, p.Faults...),
 			"tlc_distinct_states": o.Gen.Distinct, "tlc_states_generated": o.Gen.States, "tlc_depth": o.Gen.Depth, "tlc_wall_s": o.Gen.Wall,
 			"histories_printed": len(o.Gen.Behaviours), "leaf_histories": o.Leaves, "steps_on_real_code": o.Steps,
@@ -827,6 +833,7 @@ func Replay(c *core.Ctx) int {
 		return core.ExitInconclusive
 	}
 	defer w.Close()
+	keyper.VerifSetEonPubkeyTickerTime(LoopTicker)
 	root := &node{}
 	n := root
 	for _, op := range rf.Finding.Ops {
